@@ -142,111 +142,118 @@ func runC20(r *mc.Run) {
 		{name: "failure-with-Retry-After:86400", mk: func(int) error { return errors.New("429") }, hdr: map[string][]string{"Retry-After": {"86400"}}},
 		{name: "failure-with-Retry-After:garbage+Date", mk: func(int) error { return errors.New("503") }, hdr: map[string][]string{"Retry-After": {"soon", "-5"}, "Date": {"x"}, "Connection": {"close"}}},
 	}
-	// The clock is global to the process: executions are run one at a time.
-	for gi, gr := range grids {
-		for si0 := 0; si0 < len(shapes)+len(errKinds)-1; si0++ {
-			si, ek := si0, errKinds[0]
-			if si0 >= len(shapes) {
-				si, ek = 1, errKinds[si0-len(shapes)+1]
-				if !(gr.def || gi%5 == 2) {
-					continue // the other error kinds on the default configuration and on every 5th grid point
+	// The clock is global to the process: executions are run one at a time. Everything runs under both timer-channel
+	// semantics: ticks discarded by Reset / Stop (go >= 1.23 main modules) and ticks that stay in the channel (earlier)
+	for _, stale := range []bool{false, true} {
+		for gi, gr := range grids {
+			for si0 := 0; si0 < len(shapes)+len(errKinds)-1; si0++ {
+				si, ek := si0, errKinds[0]
+				if si0 >= len(shapes) {
+					si, ek = 1, errKinds[si0-len(shapes)+1]
+					if !(gr.def || gi%5 == 2) {
+						continue // the other error kinds on the default configuration and on every 5th grid point
+					}
 				}
-			}
-			sh := shapes[si]
-			if si > 0 && ek.mk == nil && !(gr.def || gi%7 == 3) {
-				continue // the other response shapes on the default configuration and on every 7th grid point
-			}
-			for li, lat := range []time.Duration{0, time.Second, 0, 0} {
-				// latency kinds 2 / 3: only the FIRST attempt is slow — it outlasts the timeout by a second / ends a
-				// second before it; every later attempt answers at once
-				var firstLat time.Duration
-				if li == 2 {
-					firstLat = gr.timeout + time.Second
-				} else if li == 3 {
-					firstLat = gr.timeout - time.Second
+				sh := shapes[si]
+				if si > 0 && ek.mk == nil && !(gr.def || gi%7 == 3) {
+					continue // the other response shapes on the default configuration and on every 7th grid point
 				}
-				if li >= 2 && (firstLat <= 0 || si > 0 || gr.maxDelay == 0) {
-					continue // (with MaxRetryDelay 0 the later, instant attempts spin without virtual time passing: the contradictory corner)
-				}
-				// k = -1 is "fail forever"; it tells how many attempts the timeout allows
-				maxK := 0
-				for k := -1; k <= maxK; k++ {
-					k := k
-					if si > 0 && (k < 0 || k > 2) && maxK != 0 {
-						continue
+				for li, lat := range []time.Duration{0, time.Second, 0, 0} {
+					// latency kinds 2 / 3: only the FIRST attempt is slow — it outlasts the timeout by a second / ends a
+					// second before it; every later attempt answers at once
+					var firstLat time.Duration
+					if li == 2 {
+						firstLat = gr.timeout + time.Second
+					} else if li == 3 {
+						firstLat = gr.timeout - time.Second
 					}
-					name := fmt.Sprintf("retry/timeout=%v,maxdelay=%v,default=%v,latency=%v,k=%d", gr.timeout, gr.maxDelay, gr.def, lat, k)
-					if firstLat != 0 {
-						name = fmt.Sprintf("retry/timeout=%v,maxdelay=%v,default=%v,first-attempt-latency=%v,k=%d", gr.timeout, gr.maxDelay, gr.def, firstLat, k)
+					if li >= 2 && (firstLat <= 0 || si > 0 || gr.maxDelay == 0) {
+						continue // (with MaxRetryDelay 0 the later, instant attempts spin without virtual time passing: the contradictory corner)
 					}
-					if si > 0 {
-						name += ",response=" + sh.name
-					}
-					if ek.mk != nil {
-						name += ",failure=" + ek.name
-					}
-					attemptsSeen := 0
-					st := exploreSerial(r, name, bound, func(c *mc.Ctx) {
-						vsched.Reset()
-						vsched.SetHorizon(gr.timeout + gr.maxDelay + 10*time.Minute)
-						vsched.Chooser = func(label string, n int) int { return c.Choose(label, n) }
-						defer func() { vsched.Chooser = nil }()
-						wantHdr, wantBody = sh.header, sh.body
-						inner := &c20inner{failFirst: k, latency: lat,
-							header: cloneHdr(sh.header), body: cloneBytes(sh.body),
-							failHdr: map[string][]string{"X-Stale": {"stale"}}, failBody: []byte("stale body"), failErr: ek.mk, firstLat: firstLat}
-						if ek.hdr != nil {
-							inner.failHdr = cloneHdr(ek.hdr)
+					// k = -1 is "fail forever"; it tells how many attempts the timeout allows
+					maxK := 0
+					for k := -1; k <= maxK; k++ {
+						k := k
+						if si > 0 && (k < 0 || k > 2) && maxK != 0 {
+							continue
 						}
-						var getter *trust.RetryHTTPSGetter
-						if gr.def {
-							dg, ok := trust.DefaultHTTPSGetter().(*trust.RetryHTTPSGetter)
-							if !ok {
-								r.HarnessError("DefaultHTTPSGetter is no longer a *RetryHTTPSGetter; C20's default-configuration case needs updating")
+						name := fmt.Sprintf("retry/timeout=%v,maxdelay=%v,default=%v,latency=%v,k=%d", gr.timeout, gr.maxDelay, gr.def, lat, k)
+						if firstLat != 0 {
+							name = fmt.Sprintf("retry/timeout=%v,maxdelay=%v,default=%v,first-attempt-latency=%v,k=%d", gr.timeout, gr.maxDelay, gr.def, firstLat, k)
+						}
+						if si > 0 {
+							name += ",response=" + sh.name
+						}
+						if ek.mk != nil {
+							name += ",failure=" + ek.name
+						}
+						if stale {
+							name += ",timer-ticks-survive-reset"
+						}
+						attemptsSeen := 0
+						st := exploreSerial(r, name, bound, func(c *mc.Ctx) {
+							vsched.Reset()
+							vsched.StaleTicks = stale
+							vsched.SetHorizon(gr.timeout + gr.maxDelay + 10*time.Minute)
+							vsched.Chooser = func(label string, n int) int { return c.Choose(label, n) }
+							defer func() { vsched.Chooser = nil }()
+							wantHdr, wantBody = sh.header, sh.body
+							inner := &c20inner{failFirst: k, latency: lat,
+								header: cloneHdr(sh.header), body: cloneBytes(sh.body),
+								failHdr: map[string][]string{"X-Stale": {"stale"}}, failBody: []byte("stale body"), failErr: ek.mk, firstLat: firstLat}
+							if ek.hdr != nil {
+								inner.failHdr = cloneHdr(ek.hdr)
+							}
+							var getter *trust.RetryHTTPSGetter
+							if gr.def {
+								dg, ok := trust.DefaultHTTPSGetter().(*trust.RetryHTTPSGetter)
+								if !ok {
+									r.HarnessError("DefaultHTTPSGetter is no longer a *RetryHTTPSGetter; C20's default-configuration case needs updating")
+									return
+								}
+								if dg.Timeout != 2*time.Minute || dg.MaxRetryDelay != 30*time.Second {
+									r.Violate("default-config", name, fmt.Sprintf("default getter is configured with timeout %v / max delay %v, want 2m / 30s", dg.Timeout, dg.MaxRetryDelay), nil)
+								}
+								dg.Getter = inner
+								getter = dg
+							} else {
+								getter = &trust.RetryHTTPSGetter{Timeout: gr.timeout, MaxRetryDelay: gr.maxDelay, Getter: inner}
+							}
+							var hdr map[string][]string
+							var body []byte
+							var err error
+							var pan any
+							func() {
+								defer func() { pan = recover() }()
+								hdr, body, err = getter.Get("https://example.test/x")
+							}()
+							id := name + "/" + c.ID()
+							if inner.calls > attemptsSeen {
+								attemptsSeen = inner.calls
+							}
+							if !r.Want(id) {
 								return
 							}
-							if dg.Timeout != 2*time.Minute || dg.MaxRetryDelay != 30*time.Second {
-								r.Violate("default-config", name, fmt.Sprintf("default getter is configured with timeout %v / max delay %v, want 2m / 30s", dg.Timeout, dg.MaxRetryDelay), nil)
+							jl := lat
+							if firstLat > jl {
+								jl = firstLat
 							}
-							dg.Getter = inner
-							getter = dg
-						} else {
-							getter = &trust.RetryHTTPSGetter{Timeout: gr.timeout, MaxRetryDelay: gr.maxDelay, Getter: inner}
-						}
-						var hdr map[string][]string
-						var body []byte
-						var err error
-						var pan any
-						func() {
-							defer func() { pan = recover() }()
-							hdr, body, err = getter.Get("https://example.test/x")
-						}()
-						id := name + "/" + c.ID()
-						if inner.calls > attemptsSeen {
-							attemptsSeen = inner.calls
-						}
-						if !r.Want(id) {
-							return
-						}
-						jl := lat
-						if firstLat > jl {
-							jl = firstLat
-						}
-						out := c20Judge(r, id, gr.timeout, gr.maxDelay, jl, k, inner, hdr, body, err, pan)
-						r.Eval(id, k != 0, out)
-					})
-					_ = st
-					if k == -1 && si > 0 {
-						maxK = 2
-					} else if k == -1 {
-						maxK = attemptsSeen // "k failures then success" for every k the timeout allows (and one beyond)
-						if maxK < 3 {
-							maxK = 3
-						}
-						if maxK > 150 {
-							maxK = 150
-							if !(gr.maxDelay == 0 && lat == 0) {
-								r.Cap(fmt.Sprintf("%s: more than 150 attempts fit in the timeout; k explored up to 150", name))
+							out := c20Judge(r, id, gr.timeout, gr.maxDelay, jl, k, inner, hdr, body, err, pan)
+							r.Eval(id, k != 0, out)
+						})
+						_ = st
+						if k == -1 && si > 0 {
+							maxK = 2
+						} else if k == -1 {
+							maxK = attemptsSeen // "k failures then success" for every k the timeout allows (and one beyond)
+							if maxK < 3 {
+								maxK = 3
+							}
+							if maxK > 150 {
+								maxK = 150
+								if !(gr.maxDelay == 0 && lat == 0) {
+									r.Cap(fmt.Sprintf("%s: more than 150 attempts fit in the timeout; k explored up to 150", name))
+								}
 							}
 						}
 					}
@@ -254,6 +261,7 @@ func runC20(r *mc.Run) {
 			}
 		}
 	}
+	vsched.StaleTicks = false
 }
 
 var (
